@@ -60,6 +60,7 @@ pub fn run(unit: &str, ctx: &Ctx, rng: &mut Rng, o: &mut Out) -> bool {
     "topo" => topo::unit(ctx, rng, o),
     "c13_process" => c13proj::process(ctx, rng, o),
     "navigation" => navigation::navigation(ctx, rng, o),
+    "replace_all" => navigation::replace_all_unit(ctx, rng, o),
     "frontends_edit" => frontends::frontends_edit(ctx, rng, o),
     "frontends_findings" => frontends::frontends_findings(ctx, rng, o),
     "read_file" => worker::read_file(ctx, rng, o),
